@@ -212,11 +212,21 @@ class Type3Tag(nfc.tag.Tag):
                 log.debug("unsupported ndef mapping major version")
                 return None
 
+            if attributes['ln'] > attributes['nmaxb'] * 16:
+                log.debug("ndef length exceeds the data area")
+                return None
+
+            # a read response can not carry more than 15 blocks
+            nbr = min(attributes['nbr'], 15)
+            if nbr < 1:
+                log.debug("ndef data can not be read with nbr 0")
+                return None
+
             last_block_number = 1 + (attributes['ln'] + 15) // 16
             data = bytearray()
 
-            for i in range(1, last_block_number, attributes['nbr']):
-                last_block = min(i + attributes['nbr'], last_block_number)
+            for i in range(1, last_block_number, nbr):
+                last_block = min(i + nbr, last_block_number)
                 block_list = range(i, last_block)
                 try:
                     block_data = self.tag.read_from_ndef_service(*block_list)
